@@ -9,6 +9,7 @@
   exactly these bytes on the wire is decided by the `c11` stream (independent encoder in the oracle).
 -/
 import Rsdns.Lemmas.Encode
+import Rsdns.Lemmas.Guards
 
 set_option linter.unusedVariables false
 
@@ -34,7 +35,7 @@ theorem refused_before_send (c : Cfg) (id : Nat) (qname : Bytes) (qtype qclass b
   intro run
   simp only [run]
   unfold queryRaw
-  simp [hb, hm]
+  simp [Cfg.bufTooShort_eq, hb, hm]
 
 /-- **the advertised EDNS payload is min(configured, receive-buffer length)**, and an OPT record is
     asked for exactly when EDNS is on -/
@@ -45,7 +46,7 @@ theorem payload_clamp (c : Cfg) (buflen : Nat) :
   unfold clientOpt
   constructor
   · intro h; simp [h]
-  · intro v p h; simp [h]
+  · intro v p h; simp [h, Cfg.ups_eq]
 
 /-- both client implementations build the query in a 288-byte buffer -/
 theorem query_buffer_sizes : STD_QUERY_BUFFER_SIZE = 288 ∧ ASYNC_QUERY_BUFFER_SIZE = 288 := by decide
@@ -72,5 +73,32 @@ theorem query_bytes (cap id : Nat) (qname : Bytes) (qtype qclass : Nat) (rd : Bo
   | panic p => simp [hb] at h
   | ub => simp [hb] at h
 
+
+/-! ### the query-building expressions regenerated from the sources
+
+`prepare_message` (both clients), the caller-buffer gate of `query_raw` (both clients) and the two EDNS
+conditions of `ClientConfig::check` are rewritten into `Generated.lean` on every run; the model evaluates
+those definitions.  Closed forms: -/
+
+theorem source_expressions (c : Cfg) (payload buflen : Nat) :
+    c.ups payload buflen = Nat.min payload buflen % 65536 ∧
+    c.bufTooShort buflen = decide (buflen < DNS_MESSAGE_BUFFER_MIN_LENGTH) ∧
+    cfg_payload_too_small payload = decide (payload < DNS_MESSAGE_BUFFER_MIN_LENGTH) ∧
+    cfg_payload_exceeds_buffer payload buflen = (decide (buflen > 0) && decide (payload > buflen)) :=
+  ⟨Cfg.ups_eq c payload buflen, Cfg.bufTooShort_eq c buflen, rfl, rfl⟩
+
+/-- a configuration that `check()` accepts never advertises less than 512 octets nor more than a non-zero
+    internal buffer holds -/
+theorem checked_payload (c : Cfg) (v p : Nat) (he : c.edns = some (v, p)) (hc : c.check = .ok ()) :
+    DNS_MESSAGE_BUFFER_MIN_LENGTH ≤ p ∧ (0 < c.cfgbuf → p ≤ c.cfgbuf) := by
+  unfold Cfg.check at hc
+  rw [he] at hc
+  simp only at hc
+  unfold cfg_payload_too_small cfg_payload_exceeds_buffer at hc
+  by_cases h1 : p < DNS_MESSAGE_BUFFER_MIN_LENGTH
+  · simp [h1] at hc
+  · by_cases h2 : c.cfgbuf > 0 ∧ p > c.cfgbuf
+    · simp [h1, h2.1, h2.2] at hc
+    · exact ⟨by omega, fun h => by omega⟩
 
 end Rsdns.C11
